@@ -144,7 +144,7 @@ func stormSteps(r *core.Rand, G, n int) [][]*cop {
 }
 
 func (o *cop) msg() msg {
-	m := msg{fault: 'n'}
+	m := msg{fault: 'n', shape: -1}
 	if o.fault {
 		m.fault = 'r'
 	}
@@ -180,7 +180,7 @@ func execOp(l *har.Logger, o *cop, clk *int64) string {
 		if m.fault == 'n' && o.g == nil && !o.slow {
 			b = mkResMsg(o.tag, m, nil, nil)
 		} else {
-			b = mkResMsg(o.tag, msg{ctype: "text/plain", fault: m.fault}, o.g, yield)
+			b = mkResMsg(o.tag, msg{ctype: "text/plain", fault: m.fault, shape: -1}, o.g, yield)
 		}
 		o.inv = atomic.AddInt64(clk, 1)
 		err := l.RecordResponse(o.id, b.res)
